@@ -36,6 +36,7 @@ static void put_all(ptree &p, Rng &r, int ci, int ri, const SolverCfg &s, CallSp
     p.put("solver.type", s.type); p.put("solver.tol", cs.tol); p.put("solver.maxiter", cs.maxiter); if (s.has_side) p.put("solver.pside", s.left ? "left" : "right");
     std::string t = s.type;
     if (t == "bicgstabl" && r.coin()) { cs.L = (int)r.pick(std::vector<int>{1, 3, 4}); p.put("solver.L", cs.L); }
+    if (t == "bicgstabl" && r.coin(0.3)) { cs.delta = 1e-2; p.put("solver.delta", cs.delta); }
     if (t == "idrs" && r.coin()) { p.put("solver.s", (int)r.range(1, 6)); if (r.coin(0.4)) p.put("solver.smoothing", true); }
     if ((t == "gmres" || t == "fgmres" || t == "lgmres") && r.coin()) p.put("solver.M", (int)r.pick(std::vector<int>{4, 10}));
 }
@@ -85,6 +86,7 @@ static void run_cases() {
                K.normA = std::sqrt(K.normA * K.normA + sg * sg);
                if (kind == 2) { A = vf::complex_hermitian(Ar, r); for (size_t i = 0; i < A.n; ++i) for (ptrdiff_t j = A.ptr[i]; j < A.ptr[i + 1]; ++j) if ((size_t)A.col[j] == i) A.val[j] += Z(0, sg); fam = "hermitian-gauge-shifted"; } }
         int ci = (int)(idx % 3), ri = (int)((idx / 3) % 9);      // ruge_stuben is not offered for non-scalar value types (the runtime wrapper throws)
+        K.smoother_outside_domain = kind != 0 && std::string(RELAX[ri]) == "chebyshev";     // non-Hermitian spectrum: outside the Chebyshev smoother's domain (see c01_truthful.cpp)
         std::vector<Z> f(A.n), x0(A.n, Z(0)); for (auto &v : f) v = Z(r.uni(-1, 1), r.uni(-1, 1)); if (r.coin()) for (auto &v : x0) v = Z(r.uni(-1, 1), r.uni(-1, 1));
         Case c("complex", idx, J().s("value_type", VT).s("family", fam).n("n", A.n).n("nnz", A.nnz()).s("coarsening", COARS[ci]).s("relaxation", RELAX[ri]).n("kappa_bound", K.kappa()).n("contrast", g.contrast).n("aniso", g.aniso));
         bool any = false;
